@@ -881,6 +881,11 @@ def channel_capacity(chk):
                             cap = kw.value
                     if cap is None and node.args:
                         cap = node.args[0]
+                    if isinstance(cap, ast.Name) and cap.id in fi.params() + [x.arg for x in fi.node.args.kwonlyargs]:
+                        # a defaulted parameter nothing in the package supplies
+                        dflt = util.unsupplied_default_nodes(prog, fi).get(cap.id)
+                        if dflt is not None and not any(isinstance(x, ast.Name) and x.id == cap.id and isinstance(x.ctx, (ast.Store, ast.Del)) for x in ast.walk(fi.node)):
+                            cap = dflt
                     if isinstance(cap, (ast.Name, ast.Attribute)):
                         mc = prog.module_constant(prog.resolve(cls.module, cap))
                         if mc is not None:
